@@ -22,6 +22,10 @@ RULE = (
     "earlier result, the caller's frames and the caller's namespace must be unchanged; (O3) the reference table "
     "must be identical in fresh interpreters under other hash seeds.  States are histories (no dedup: fully "
     "stateless); non-trivial: the history contains at least two events that touch designs"
+    '  Added: specs with a zero-mean column, a caller-held encoding object, a caller array, one caller-held '
+    'Environment with two extra namespaces, a stateful helper term, a degenerate poly; events '
+    'edit-frame-in-place and refused config assignments; every result is also observed as str / repr / '
+    'as_dataframe. '
 )
 ASSUMPTIONS = [
     "fresh process-state = a process forked from the pristine parent (formulae imported, nothing executed); plus real fresh interpreters for the reference table under PYTHONHASHSEED 1 and 2",
